@@ -21,6 +21,7 @@ BUDGET = {'quick': 6000, 'thorough': 500000}
 WALL = {'quick': 100, 'thorough': 1500}
 CHUNK = 40
 SELFTEST = {'quick': 14, 'thorough': 200}
+REQUIRED_PROBES = ['hash_salted_names', 'hashseed_interpreters', 'plot_only_rank', 'setupSave_bcast', 'setupSave_root_nonzero', 'drawing_rank_nonzero', 'minmax_on_swapper_grid', 'kind_driver', 'arrival_order_P3_']
 RULE = ('case kinds (swarm-weighted): layout = LayoutHandler/LayoutSwapper construction + all-pairs '
         'transposes with layout names whose hash is salted per rank, under a systematic sweep of all '
         'P! consistent arrival orders for P <= 3 (quick) / 4 (thorough) and straggler/eager/bursty '
